@@ -302,3 +302,80 @@ Proof.
   split; [apply (reaction_renumbering (N.add 10) (fun a b => proj1 (N.add_cancel_l a b 10%N))); assumption|].
   split; [vm_compute; reflexivity|]. apply ctxS_construct; [|lia]. exact (proj1 C02_sides_store_true_nonvacuous).
 Qed.
+
+(** * two facts about balls, generic in the node and bond types
+    (a) inside the radius-k context every atom keeps its distance to the start atoms: a walk of length <= k from a start atom stays
+        in the ball, so the context is CONNECTED to its centre — no atom of a context is cut off from the centre inside the context;
+    (b) radii add up: the radius-(j+k) ball is the radius-k ball around the radius-j ball (what an incremental, HierContext-style
+        extraction relies on). *)
+Section BallFacts.
+Context {A B : Type}.
+Variable g : lgraph A B.
+Hypothesis W : wf g.
+Variable S : list N.
+Hypothesis HS : forall s, In s S -> In s (node_ids g).
+
+Lemma walk_into_ball k s n j : In s S -> walk_g g s n j -> (j <= k)%nat -> walk_g (ball_sub g S k) s n j.
+Proof.
+  intros Is Wk. induction Wk as [s|s u n j Wk IH Ad]; intros Hj; [constructor|].
+  econstructor; [apply IH; [exact Is|lia]|].
+  destruct (ball_sub_spec g S k W HS) as (_ & _ & A1).
+  destruct (adj g u n) as [e|] eqn:E; [|congruence].
+  assert (adj (ball_sub g S k) u n = Some e) as ->; [|discriminate].
+  apply A1. split; [exact E|]. split.
+  - exists s, j. repeat split; [exact Is|lia|exact Wk].
+  - exists s, (Datatypes.S j). repeat split; [exact Is|lia|]. econstructor; [exact Wk|congruence].
+Qed.
+
+Lemma walk_from_ball k s n j : walk_g (ball_sub g S k) s n j -> walk_g g s n j.
+Proof.
+  intros Wk. induction Wk as [s|s u n j Wk IH Ad]; [constructor|]. econstructor; [exact IH|].
+  destruct (ball_sub_spec g S k W HS) as (_ & _ & A1).
+  destruct (adj (ball_sub g S k) u n) as [e|] eqn:E; [|congruence]. apply A1 in E. destruct E as [E _]. congruence.
+Qed.
+
+Theorem ball_distances_preserved k j n : (j <= k)%nat -> (dist_le_g (ball_sub g S k) S j n <-> dist_le_g g S j n).
+Proof.
+  intros Hj. split; intros (s & i & Is & Hi & Wk); exists s, i; repeat split; auto.
+  - apply (walk_from_ball k). exact Wk.
+  - apply walk_into_ball; [exact Is|exact Wk|lia].
+Qed.
+
+(** every atom of the context is reached from a start atom by a walk of at most k bonds INSIDE the context *)
+Corollary ball_connected_to_seeds k n : In n (node_ids (ball_sub g S k)) -> dist_le_g (ball_sub g S k) S k n.
+Proof. intros I. apply (ball_distances_preserved k k n (le_n _)). apply (proj1 (ball_sub_spec g S k W HS)). exact I. Qed.
+
+Lemma walk_g_app s u n i j : walk_g g s u i -> walk_g g u n j -> walk_g g s n (i + j).
+Proof.
+  intros W1 W2. induction W2 as [u|u v n j W2 IH Ad]; [rewrite Nat.add_0_r; exact W1|].
+  rewrite Nat.add_succ_r. econstructor; [apply IH; exact W1|exact Ad].
+Qed.
+
+Lemma walk_g_split s n i j : walk_g g s n (i + j) -> exists u, walk_g g s u i /\ walk_g g u n j.
+Proof.
+  revert n. induction j as [|j IH]; intros n Wk.
+  - rewrite Nat.add_0_r in Wk. exists n. split; [exact Wk|constructor].
+  - rewrite Nat.add_succ_r in Wk. inversion Wk as [|s' u' n' m' Wk' Ad]; subst.
+    destruct (IH u' Wk') as (u & W1 & W2). exists u. split; [exact W1|]. econstructor; [exact W2|exact Ad].
+Qed.
+
+Theorem ball_radii_add j k n : dist_le_g g S (j + k) n <-> dist_le_g g (knn_g g S j) k n.
+Proof.
+  split.
+  - intros (s & i & Is & Hi & Wk). destruct (Nat.le_gt_cases i j) as [Hij|Hij].
+    + exists n, O. repeat split; [|lia|constructor]. apply knn_g_spec. exists s, i. auto.
+    + replace i with (j + (i - j))%nat in Wk by lia. destruct (walk_g_split s n j (i - j) Wk) as (u & W1 & W2).
+      exists u, (i - j)%nat. repeat split; [|lia|exact W2]. apply knn_g_spec. exists s, j. auto.
+  - intros (u & i & Iu & Hi & Wk). apply knn_g_spec in Iu. destruct Iu as (s & i0 & Is & Hi0 & W1).
+    exists s, (i0 + i)%nat. repeat split; [exact Is|lia|]. apply (walk_g_app s u n); assumption.
+Qed.
+End BallFacts.
+
+Example C02_ball_facts_nonvacuous :
+  dist_le_g (ball_sub (emb_S ctxS_ex) [3%N] 2) [3%N] 2 5%N /\ ~ In 6%N (node_ids (ball_sub (emb_S ctxS_ex) [3%N] 2)) /\
+  knn_g (emb_S ctxS_ex) (knn_g (emb_S ctxS_ex) [3%N] 1) 2 = [6%N; 5%N; 3%N; 4%N].
+Proof.
+  split; [|split; [vm_compute; intuition discriminate|vm_compute; reflexivity]].
+  apply ball_connected_to_seeds; [exact (proj1 C02_ctxS_nonvacuous)| |vm_compute; auto].
+  intros s [<-|[]]. vm_compute. auto.
+Qed.
